@@ -2,6 +2,7 @@
 from sim import history
 
 PROP = 'C06'
+TECHNIQUE = 'deterministic simulation: seeded key graphs and histories checked against an access matrix derived by an independent reader'
 LEVEL = 'exploration'
 RULE = ('one case = a key graph grown by init + add-key (independent / shared / clone, varied KDF parameters) and a seeded '
         'history of snapshot / list / restore / delete / clean / delete-of-foreign-snapshot / unlock-with-mismatched-credentials '
